@@ -196,3 +196,59 @@ def streams(tier, rng):
                 return [('dispatch-numbers', 'table [%r], message %r: SCPI_CommandNumbers gave %s, expected %s' % (p, h, m.group(0) if m else None, want))]
         return []
     yield {'name': 'through-parser', 'cases': dcases, 'oracle': doracle, 'nontrivial': lambda c, o: c if ' H1:' in o else None}
+    # the suffixes a handler is told belong to the header that was accepted: for a unit that inherits its leading keywords from
+    # the preceding unit of the message that is the composed (effective) header
+    rcases, rinfo = [], {}
+    for p in pats[:: (2 if tier == 'quick' else 1)]:
+        pp = spec.parse_pattern(p)
+        if pp is None or pp[2] or len(pp[0]) < 2 or not spec.unambiguous(p):
+            continue
+        items, q, _ = pp
+        segs = []
+        for (w, ns, opt, num) in items:
+            segs.append(rng.choice([w.upper(), w[:ns].upper(), w.lower()]) + (str(rng.choice([2, 7, 13, 456])) if (num and rng.random() < 0.8) else ''))
+        h1 = ':'.join(segs) + ('?' if q else '')
+        k = rng.randint(1, len(segs) - 1)                 # the second unit repeats the last len-k keywords with fresh suffixes
+        segs2 = []
+        for (w, ns, opt, num) in items[k:]:
+            segs2.append(rng.choice([w.upper(), w[:ns].upper()]) + (str(rng.choice([3, 8, 21])) if (num and rng.random() < 0.8) else ''))
+        h2 = ':'.join(segs2) + ('?' if q else '')
+        if not re.fullmatch(r'[A-Za-z][A-Za-z0-9_:]*\??', h1) or not re.fullmatch(r'[A-Za-z][A-Za-z0-9_:]*\??', h2):
+            continue
+        c = gen.scenario(256, 8, [(1, p.encode(), 'NUMS:4:-1')], [('I', (h1 + ';' + h2 + '\n').encode())])
+        rcases.append(c)
+        rinfo[c] = (p, [h1, h2])
+
+    def roracle(case, out):
+        if out.startswith('X') or ' X' in out or case not in rinfo:
+            return []
+        p, hs = rinfo[case]
+        effs = spec.effective_headers(hs)
+        toks = [t for t in out.split(' ') if t[:2] == 'H1' or t[:1] == 'N' or t == 'E-113']
+        want = []
+        for e in effs:
+            r = spec.accepts(p, e)
+            if r is None:
+                return []
+            want.append(('H', [(v if v is not None else -1) for v in r[1]][:4]) if r[0] else ('U',))
+        got, i = [], 0
+        while i < len(toks):
+            if toks[i].startswith('H1'):
+                nums = None
+                if i + 1 < len(toks) and toks[i + 1].startswith('N'):
+                    m = re.match(r'N(\d):([-\d,]*)', toks[i + 1])
+                    nums = [int(x) for x in m.group(2).split(',')] if m and m.group(1) == '1' else 'fail'
+                    i += 1
+                got.append(('H', nums))
+            elif toks[i] == 'E-113':
+                got.append(('U',))
+            i += 1
+        if len(got) != len(want):
+            return [('dispatch-relative', 'table [%r], message %r: units seen %s, expected %s' % (p, hs, got, want))]
+        for g, w, e in zip(got, want, effs):
+            if g[0] != w[0]:
+                return [('dispatch-relative', 'table [%r], message %r: effective header %r %s' % (p, hs, e, 'should have run the handler' if w[0] == 'H' else 'should be undefined'))]
+            if w[0] == 'H' and (g[1] in (None, 'fail') or any(x <= 2147483647 and y != x for x, y in zip(w[1], g[1]))):
+                return [('numbers-relative', 'table [%r], message %r: for the effective header %r SCPI_CommandNumbers gave %s, expected %s' % (p, hs, e, g[1], w[1]))]
+        return []
+    yield {'name': 'relative-units', 'coqcheck': True, 'cases': rcases, 'oracle': roracle, 'nontrivial': lambda c, o: c if o.count(' H1:') >= 2 else None}
